@@ -100,4 +100,42 @@ example : (rawStats [(1, 1), (2, 1), (3, 2), (6, 0)]).min = some 1 ∧ (rawStats
     (rawStats [(1, 1), (2, 1), (3, 2), (6, 0)]).variance = some (11 / 16) := by
   decide +kernel
 
+theorem sumWV_append (a b : List Pt) : sumWV (a ++ b) = sumWV a + sumWV b := by
+  simp [sumWV, List.map_append, List.sum_append]
+
+theorem wsum_append' (a b : List Pt) : wsum (a ++ b) = wsum a + wsum b := by
+  simp [wsum, List.map_append, List.sum_append]
+
+/-- **The mean of a sum of histograms is the pooled mean**: the statistics of `h(A) + h(B)` (or of two
+    `fill_n` chunks) report the weight-average `(W_A·μ_A + W_B·μ_B) / (W_A + W_B)` of the two means,
+    which lies between them. -/
+theorem C14_pooled_mean (a b : List Pt) (ha : a ≠ []) (hb : b ≠ []) (hwa : 0 < wsum a) (hwb : 0 < wsum b) :
+    ∃ μa μb μ, (rawStats a).mean = some μa ∧ (rawStats b).mean = some μb ∧
+      ((rawStats a).add (rawStats b)).mean = some μ ∧
+      μ = (wsum a * μa + wsum b * μb) / (wsum a + wsum b) ∧ min μa μb ≤ μ ∧ μ ≤ max μa μb := by
+  have hab : a ++ b ≠ [] := by simp [ha]
+  have hw : 0 < wsum (a ++ b) := by rw [wsum_append']; exact add_pos hwa hwb
+  have h1 := (C14_moments a ha hwa).1
+  have h2 := (C14_moments b hb hwb).1
+  have h3 := (C14_moments (a ++ b) hab hw).1
+  rw [← C14_hom] at h3
+  rw [sumWV_append, wsum_append'] at h3
+  have hwa' := ne_of_gt hwa
+  have hwb' := ne_of_gt hwb
+  have hsum : 0 < wsum a + wsum b := add_pos hwa hwb
+  have e1 : wsum a * (sumWV a / wsum a) = sumWV a := by field_simp
+  have e2 : wsum b * (sumWV b / wsum b) = sumWV b := by field_simp
+  refine ⟨_, _, _, h1, h2, h3, by rw [e1, e2], ?_, ?_⟩
+  · rw [le_div_iff₀ hsum]
+    rcases le_total (sumWV a / wsum a) (sumWV b / wsum b) with h | h
+    · rw [min_eq_left h]; nlinarith [mul_le_mul_of_nonneg_left h (le_of_lt hwb)]
+    · rw [min_eq_right h]; nlinarith [mul_le_mul_of_nonneg_left h (le_of_lt hwa)]
+  · rw [div_le_iff₀ hsum]
+    rcases le_total (sumWV a / wsum a) (sumWV b / wsum b) with h | h
+    · rw [max_eq_right h]; nlinarith [mul_le_mul_of_nonneg_left h (le_of_lt hwa)]
+    · rw [max_eq_left h]; nlinarith [mul_le_mul_of_nonneg_left h (le_of_lt hwb)]
+
+/-! Non-vacuity: A = {1, 3} (weights 1, 1), B = {6} (weight 2): means 2 and 6, pooled mean 4. -/
+example : ((rawStats [(1, 1), (3, 1)]).add (rawStats [(6, 2)])).mean = some 4 := by decide +kernel
+
 end Physt
